@@ -6,63 +6,63 @@ attribute [local grind cases] Ag
 
 set_option maxHeartbeats 4000000 in
 theorem i2_send {s s' : State} {a : Ag} (h1 : I1 s) (hi : I2 s) (h : stepSend s a = some s') : I2 s' := by
-  obtain ⟨kSend, bodyK, freshM, freshP, freshG, goneM, finR, finS, finU, freedR, freedS, freedF, ciCl, rSide, rdropCl, recvOpen, dcST⟩ := h1
+  obtain ⟨kSend, bodyK, freshM, freshP, freshG, goneM, finR, finS, finU, freedR, freedS, freedF, ciCl, rdropCl, recvOpen, dcST⟩ := h1
   obtain ⟨wrS, wrU, stW⟩ := hi
   os_split h [stepSend]
   all_goals (constructor <;> os_close a)
 
 set_option maxHeartbeats 4000000 in
 theorem i2_wk {s s' : State} {a : Ag} (h1 : I1 s) (hi : I2 s) (h : stepWk s a = some s') : I2 s' := by
-  obtain ⟨kSend, bodyK, freshM, freshP, freshG, goneM, finR, finS, finU, freedR, freedS, freedF, ciCl, rSide, rdropCl, recvOpen, dcST⟩ := h1
+  obtain ⟨kSend, bodyK, freshM, freshP, freshG, goneM, finR, finS, finU, freedR, freedS, freedF, ciCl, rdropCl, recvOpen, dcST⟩ := h1
   obtain ⟨wrS, wrU, stW⟩ := hi
   os_split h [stepWk]
   all_goals (constructor <;> os_close a)
 
 set_option maxHeartbeats 4000000 in
 theorem i2_cl {s s' : State} {a : Ag} (h1 : I1 s) (hi : I2 s) (h : stepCl s a = some s') : I2 s' := by
-  obtain ⟨kSend, bodyK, freshM, freshP, freshG, goneM, finR, finS, finU, freedR, freedS, freedF, ciCl, rSide, rdropCl, recvOpen, dcST⟩ := h1
+  obtain ⟨kSend, bodyK, freshM, freshP, freshG, goneM, finR, finS, finU, freedR, freedS, freedF, ciCl, rdropCl, recvOpen, dcST⟩ := h1
   obtain ⟨wrS, wrU, stW⟩ := hi
   os_split h [stepCl]
   all_goals (constructor <;> os_close a)
 
 set_option maxHeartbeats 4000000 in
 theorem i2_x {s s' : State} {a : Ag} (h1 : I1 s) (hi : I2 s) (h : stepX s a = some s') : I2 s' := by
-  obtain ⟨kSend, bodyK, freshM, freshP, freshG, goneM, finR, finS, finU, freedR, freedS, freedF, ciCl, rSide, rdropCl, recvOpen, dcST⟩ := h1
+  obtain ⟨kSend, bodyK, freshM, freshP, freshG, goneM, finR, finS, finU, freedR, freedS, freedF, ciCl, rdropCl, recvOpen, dcST⟩ := h1
   obtain ⟨wrS, wrU, stW⟩ := hi
   os_split h [stepX]
   all_goals (constructor <;> os_close a)
 
 set_option maxHeartbeats 4000000 in
 theorem i2_pb {s s' : State} {a : Ag} (h1 : I1 s) (hi : I2 s) (h : stepPb s a = some s') : I2 s' := by
-  obtain ⟨kSend, bodyK, freshM, freshP, freshG, goneM, finR, finS, finU, freedR, freedS, freedF, ciCl, rSide, rdropCl, recvOpen, dcST⟩ := h1
+  obtain ⟨kSend, bodyK, freshM, freshP, freshG, goneM, finR, finS, finU, freedR, freedS, freedF, ciCl, rdropCl, recvOpen, dcST⟩ := h1
   obtain ⟨wrS, wrU, stW⟩ := hi
   os_split h [stepPb]
   all_goals (constructor <;> os_close a)
 
 set_option maxHeartbeats 4000000 in
 theorem i2_try {s s' : State} {a : Ag} (h1 : I1 s) (hd : ∀ a, (s.loc a).m ≠ .tStClosed) (hi : I2 s) (h : stepTry s a = some s') : I2 s' := by
-  obtain ⟨kSend, bodyK, freshM, freshP, freshG, goneM, finR, finS, finU, freedR, freedS, freedF, ciCl, rSide, rdropCl, recvOpen, dcST⟩ := h1
+  obtain ⟨kSend, bodyK, freshM, freshP, freshG, goneM, finR, finS, finU, freedR, freedS, freedF, ciCl, rdropCl, recvOpen, dcST⟩ := h1
   obtain ⟨wrS, wrU, stW⟩ := hi
   os_split h [stepTry]
   all_goals (constructor <;> os_close a)
 
 set_option maxHeartbeats 4000000 in
 theorem i2_try2 {s s' : State} {a : Ag} (h1 : I1 s) (hi : I2 s) (h : stepTry2 s a = some s') : I2 s' := by
-  obtain ⟨kSend, bodyK, freshM, freshP, freshG, goneM, finR, finS, finU, freedR, freedS, freedF, ciCl, rSide, rdropCl, recvOpen, dcST⟩ := h1
+  obtain ⟨kSend, bodyK, freshM, freshP, freshG, goneM, finR, finS, finU, freedR, freedS, freedF, ciCl, rdropCl, recvOpen, dcST⟩ := h1
   obtain ⟨wrS, wrU, stW⟩ := hi
   os_split h [stepTry2]
   all_goals (constructor <;> os_close a)
 
 set_option maxHeartbeats 4000000 in
 theorem i2_poll {s s' : State} {a : Ag} (h1 : I1 s) (hi : I2 s) (h : stepPoll s a = some s') : I2 s' := by
-  obtain ⟨kSend, bodyK, freshM, freshP, freshG, goneM, finR, finS, finU, freedR, freedS, freedF, ciCl, rSide, rdropCl, recvOpen, dcST⟩ := h1
+  obtain ⟨kSend, bodyK, freshM, freshP, freshG, goneM, finR, finS, finU, freedR, freedS, freedF, ciCl, rdropCl, recvOpen, dcST⟩ := h1
   obtain ⟨wrS, wrU, stW⟩ := hi
   os_split h [stepPoll]
   all_goals (constructor <;> os_close a)
 
 set_option maxHeartbeats 4000000 in
 theorem i2_call {s s' : State} {a : Ag} (h1 : I1 s) (hi : I2 s) (h : stepCall s a = some s') : I2 s' := by
-  obtain ⟨kSend, bodyK, freshM, freshP, freshG, goneM, finR, finS, finU, freedR, freedS, freedF, ciCl, rSide, rdropCl, recvOpen, dcST⟩ := h1
+  obtain ⟨kSend, bodyK, freshM, freshP, freshG, goneM, finR, finS, finU, freedR, freedS, freedF, ciCl, rdropCl, recvOpen, dcST⟩ := h1
   obtain ⟨wrS, wrU, stW⟩ := hi
   cases a with
   | S i =>
@@ -74,14 +74,14 @@ theorem i2_call {s s' : State} {a : Ag} (h1 : I1 s) (hi : I2 s) (h : stepCall s 
 
 set_option maxHeartbeats 4000000 in
 theorem i2_ret {s s' : State} {a : Ag} (h1 : I1 s) (hi : I2 s) (h : stepRet s a = some s') : I2 s' := by
-  obtain ⟨kSend, bodyK, freshM, freshP, freshG, goneM, finR, finS, finU, freedR, freedS, freedF, ciCl, rSide, rdropCl, recvOpen, dcST⟩ := h1
+  obtain ⟨kSend, bodyK, freshM, freshP, freshG, goneM, finR, finS, finU, freedR, freedS, freedF, ciCl, rdropCl, recvOpen, dcST⟩ := h1
   obtain ⟨wrS, wrU, stW⟩ := hi
   os_split h [stepRet]
   all_goals (constructor <;> os_close a)
 
 set_option maxHeartbeats 4000000 in
 theorem i2_spur {s s' : State} {a : Ag} (h1 : I1 s) (hi : I2 s) (h : stepSpurious s a = some s') : I2 s' := by
-  obtain ⟨kSend, bodyK, freshM, freshP, freshG, goneM, finR, finS, finU, freedR, freedS, freedF, ciCl, rSide, rdropCl, recvOpen, dcST⟩ := h1
+  obtain ⟨kSend, bodyK, freshM, freshP, freshG, goneM, finR, finS, finU, freedR, freedS, freedF, ciCl, rdropCl, recvOpen, dcST⟩ := h1
   obtain ⟨wrS, wrU, stW⟩ := hi
   os_split h [stepSpurious]
   all_goals (constructor <;> os_close a)
